@@ -218,3 +218,50 @@ func c13Builders(c *run.Ctx) int {
 	}
 	return done
 }
+
+// c13LateInvalidated: a later load can break a rule on definitions it does not mention. `extend input` gives an input
+// object a required field; the default a directive declares for an argument of that type, and the argument value a
+// directive use was written with, can then no longer be coerced: the load is refused naming the new field. Every load
+// re-checks every directive, also those that passed before.
+func c13LateInvalidated(c *run.Ctx) int {
+	firsts := []string{
+		"input ZzRange { low: Int high: Int = 10 }\ndirective @zzLimit(r: ZzRange = {low: 1}) on OBJECT\ntype Query { a: Int }",
+		"input ZzRange { low: Int high: Int = 10 }\ndirective @zzLimit(r: ZzRange) on OBJECT\ntype Query @zzLimit(r: {low: 1}) { a: Int }",
+		"input ZzRange { low: Int }\ninput ZzOuter { r: ZzRange }\ndirective @zzLimit(o: [ZzOuter!] = [{r: {low: 1}}]) on OBJECT | ENUM\ntype Query { a: Int }\nenum ZzE @zzLimit { A }",
+	}
+	done := 0
+	for fi, first := range firsts {
+		for variant := 0; variant < 3; variant++ {
+			root := ggql.NewRoot(&c15Root{Query: &c15Obj{}, Mutation: &c15Obj{}, Subscription: &c15Obj{}})
+			if err := root.ParseString(first); err != nil {
+				c.Violation("c13-wellformed-rejected", map[string]interface{}{"sdl": first, "error": err.Error()})
+				break
+			}
+			var hist []string
+			switch variant {
+			case 1:
+				_ = root.ParseString("type ZzBetween { x: Int }") // an unrelated accepted load in between
+				hist = append(hist, "load: type ZzBetween { x: Int }")
+			case 2:
+				_ = root.ResolveString(`{ __schema { directives { name args { name defaultValue } } } }`, "", nil)
+				hist = append(hist, "(introspected)")
+			}
+			ext := "extend input ZzRange { step: Int! }"
+			var err error
+			pv, _ := run.Protect(func() { err = root.ParseString(ext) })
+			done++
+			c.Eval(fmt.Sprintf("late-invalidated|%d|%d", fi, variant), true)
+			c.Bucket("rule", "late-extension:directive-argument-value-no-longer-coercible")
+			switch {
+			case pv != nil:
+				c.Violation("c13-late-extension-panic", map[string]interface{}{"sdl": first, "history": hist, "later_load": ext, "panic": fmt.Sprint(pv)})
+			case err == nil:
+				c.Violation("c13-mutant-accepted", map[string]interface{}{"rule": "late-extension:directive-argument-value-no-longer-coercible", "offender": "step", "sdl": first, "history": hist, "later_load": ext,
+					"diag": "the extension gives the input type a required field the directive's default / argument value does not have; it was loaded without error"})
+			case !strings.Contains(err.Error(), "step"):
+				c.Violation("c13-offender-not-named", map[string]interface{}{"rule": "late-extension:directive-argument-value-no-longer-coercible", "offender": "step", "later_load": ext, "diag": clip(err.Error(), 300)})
+			}
+		}
+	}
+	return done
+}
